@@ -116,3 +116,42 @@ Definition conv_case (g : geom) (B : Z) (w : list (list (list (list float)))) (b
               ser_fl (flat4 (map (conv_presyn4 FN Fn) (nest4 Bn nn (ho * wo) Fn r4)))]
       end
   end.
+
+(* ---- sequences: forward / re-parameterise / forward ... (flat parameters) ---- *)
+Definition round := (pop FN * bool * pop FN * list nat * list float)%type.
+Fixpoint run_seq (fwd : list float -> option (list float) -> list nat -> list float -> tree) (n : nat)
+         (w : list float) (b : option (list float)) (rounds : list round) : list tree :=
+  match rounds with
+  | [] => []
+  | (wo, mk, bo, xs, x) :: t =>
+      let '(w', b') := step_params FN n w b wo mk bo in
+      Nd [ser_fl w'; ser_option ser_fl b'; fwd w' b' xs x] :: run_seq fwd n w' b' t
+  end.
+Definition dense_fwd (ins outs : list Z) (B : Z) (w : list float) (b : option (list float)) (xs : list nat) (x : list float) : tree :=
+  let I := Z.to_nat (prodZ ins) in let O := Z.to_nat (prodZ outs) in
+  match dense_ctor FN ins outs B (chunk I O w) b with
+  | Err e => ser_fail 0%Z e
+  | Ok c => match dense_forward FN c (@mkT FN xs x) with Ok t => Nd [L 0%Z; ser_tensor t] | Err e => ser_fail 1%Z e end
+  end.
+Definition direct_fwd (sh : list Z) (B : Z) (w : list float) (b : option (list float)) (xs : list nat) (x : list float) : tree :=
+  match direct_ctor FN sh B w b with
+  | Err e => ser_fail 0%Z e
+  | Ok c => match direct_forward FN c (@mkT FN xs x) with Ok t => Nd [L 0%Z; ser_tensor t] | Err e => ser_fail 1%Z e end
+  end.
+Definition conv_fwd (g : geom) (B : Z) (w : list float) (b : option (list float)) (xs : list nat) (x : list float) : tree :=
+  let w4 := nest4 (Z.to_nat (gF g)) (Z.to_nat (gC g)) (Z.to_nat (kH g)) (Z.to_nat (kW g)) w in
+  match conv_ctor FN g B w4 b with
+  | Err e => ser_fail 0%Z e
+  | Ok c =>
+      match conv_forward FN c xs (nest4 (hd 0 xs) (nth 1 xs 0) (nth 2 xs 0) (nth 3 xs 0) x) with
+      | Ok out => Nd [L 0%Z; Nd [ser_shape [Z.to_nat B; Z.to_nat (gF g); Z.to_nat (outH FN g); Z.to_nat (outW FN g)];
+                              ser_fl (flat4 out)]]
+      | Err e => ser_fail 1%Z e
+      end
+  end.
+Definition seq_dense ins outs B w b rounds : tree := Nd (run_seq (dense_fwd ins outs B) 0 w b rounds).
+Definition seq_direct sh B w b rounds : tree := Nd (run_seq (direct_fwd sh B) 0 w b rounds).
+(* lateral: forward is LinearDense.forward on the n x n stored weight *)
+Definition seq_lateral sh B w b rounds : tree :=
+  Nd (run_seq (dense_fwd sh sh B) (Z.to_nat (prodZ sh)) w b rounds).
+Definition seq_conv g B w b rounds : tree := Nd (run_seq (conv_fwd g B) 0 w b rounds).
